@@ -63,7 +63,47 @@ func C02(c *core.Ctx) {
 	if c.HasViolation() || c.Expired() {
 		return
 	}
+	c02zero(c, comps)
+	if c.HasViolation() || c.Expired() {
+		return
+	}
 	c02client(c)
+}
+
+// c02zero: packets with the identifier 0 (no conforming client sends them; the library takes
+// them as the packets they are, so "the identifier of the packet it answers" is 0) after packets of
+// the same kind with other identifiers, and the other way round.  The subscriber is granted QoS 0,
+// so nothing with an identifier is forwarded.
+func c02zero(c *core.Ctx, comps map[string]bool) {
+	if c.NShards > 1 && c.Shard != 0 {
+		return
+	}
+	hists := [][]Action{
+		{pub("X", "t", 1, 5, "n1"), pub("X", "t", 1, 0, "z1"), pub("X", "t", 1, 6, "n1b"),
+			{Kind: "pub2", Client: "X", Topic: "t", QoS: 2, ID: 7, Payload: "n2"}, {Kind: "pub2", Client: "X", Topic: "t", QoS: 2, ID: 0, Payload: "z2"},
+			{Kind: "pub2", Client: "X", Topic: "t", QoS: 2, ID: 8, Payload: "n2b"}},
+		{pub("X", "t", 1, 0, "z1"), pub("X", "t", 1, 5, "n1"), pub("X", "t", 1, 0, "z1b"),
+			{Kind: "pub", Client: "X", Topic: "t", QoS: 2, ID: 9, Payload: "n2"}, {Kind: "pub", Client: "X", Topic: "t", QoS: 2, ID: 0, Payload: "z2"},
+			{Kind: "pubrel", Client: "X", ID: 9}, {Kind: "pubrel", Client: "X", ID: 0}},
+	}
+	for i, h := range hists {
+		hist := append([]Action{conn("S", "s", true), sub("S", 1, "t", 0), conn("X", "x", true)}, h...)
+		spec := &HistSpec{Name: "identifier-zero", Comps: comps}
+		r := spec.RunHistory(hist, false)
+		c.Rep.Evaluations++
+		c.Rep.Executions++
+		c.Rep.States++
+		c.Rep.Nontrivial++
+		c.Rep.Transitions += int64(r.Steps)
+		if r.Violation != "" {
+			rr := spec.RunHistory(hist, true)
+			if c.Violate("C02 identifier-zero :: "+violClass(r.Violation), core.Replay{Scenario: fmt.Sprintf("identifier-zero: history %d", i), Message: r.Violation, Log: tailS(rr.Trace, 30)}) {
+				return
+			}
+		}
+	}
+	c.Rep.Scenarios++
+	c.Rep.Sample(map[string]interface{}{"search": "identifier-zero", "histories": len(hists)})
 }
 
 // c02wrap: the acknowledgements themselves cross the end of the publisher's
